@@ -1,6 +1,7 @@
 package env
 
 import (
+	"github.com/avos-io/goat/gen/goatorepo"
 	"context"
 	"fmt"
 	"time"
@@ -20,6 +21,10 @@ type Direct struct {
 	ServeCtx  context.Context
 	StopServe context.CancelFunc
 	Demux     *goat.Demux
+	Virtual   bool // the client's pipe does not end at the server (a demultiplexer or a proxy is in between)
+	Proxy     *goat.Proxy
+	Link      *Pipe // proxy -- server link (ViaProxy)
+	Disconnects []string
 }
 
 type DirectOpts struct {
@@ -30,6 +35,7 @@ type DirectOpts struct {
 	NoServer     bool
 	ServeTimeout time.Duration // >0: the context handed to Serve has this deadline (bounding the connection's lifetime)
 	Demux        bool          // client --pipe-- Demux(by source) -- one Serve per logical connection
+	ViaProxy     string        // "plain" | "rewriting" | "rewriting-nocallback": client --pipe-- Proxy --link-- Demux(by source) -- Serve; with "rewriting" the client dials a name the proxy's address-rewriting callback translates
 }
 
 // NewDirect builds the topology; the server's Serve runs in its own thread.
@@ -62,7 +68,37 @@ func NewDirect(impl SvcServer, o DirectOpts) *Direct {
 		if o.ServeTimeout > 0 {
 			d.ServeCtx, d.StopServe = context.WithTimeout(context.Background(), o.ServeTimeout)
 		}
-		if o.Demux {
+		if o.ViaProxy != "" {
+			d.Virtual = true
+			d.Link = NewPipe(d.Tap, PipeOpts{Name: "srvlink", Cap: o.Pipe.Cap, Serialize: o.Pipe.Serialize})
+			var ic goat.RpcIntercepter
+			if o.ViaProxy != "plain" {
+				ic = func(h *goatorepo.RequestHeader) error {
+					if h.Destination == "svc-by-name" {
+						h.Destination = "srv"
+					}
+					return nil
+				}
+			}
+			var cb goat.ClientDisconnect
+			if o.ViaProxy != "rewriting-nocallback" {
+				cb = func(id string, reason error) { d.Disconnects = append(d.Disconnects, id) }
+			}
+			d.Proxy = goat.NewProxy(d.ServeCtx, "proxy", func(id string) (goat.RpcReadWriter, error) {
+				if id == "srv" {
+					return d.Link.A, nil
+				}
+				return nil, ErrClosed
+			}, ic, cb)
+			d.Proxy.AddClient("cli", d.Pipe.B)
+			d.Demux = goat.NewDemux(d.ServeCtx, d.Link.B, func(r *Rpc) string { return r.GetHeader().GetSource() }, func(rw goat.RpcReadWriter) {
+				d.ServeErr = d.Srv.Serve(d.ServeCtx, rw)
+				d.ServeDone = true
+			})
+			vsched.GoNamed("demux", func() { d.Demux.Run() })
+			vsched.GoNamed("proxy", func() { d.Proxy.Serve() })
+		} else if o.Demux {
+			d.Virtual = true
 			d.Demux = goat.NewDemux(d.ServeCtx, d.Pipe.B, func(r *Rpc) string { return r.GetHeader().GetSource() }, func(rw goat.RpcReadWriter) {
 				d.ServeErr = d.Srv.Serve(d.ServeCtx, rw)
 				d.ServeDone = true
@@ -76,7 +112,11 @@ func NewDirect(impl SvcServer, o DirectOpts) *Direct {
 		}
 	}
 	if !o.NoClient {
-		d.CC = goat.NewClientConn(d.Pipe.A, "cli", "srv", o.DialOpts...)
+		dest := "srv"
+		if o.ViaProxy != "" && o.ViaProxy != "plain" {
+			dest = "svc-by-name"
+		}
+		d.CC = goat.NewClientConn(d.Pipe.A, "cli", dest, o.DialOpts...)
 	}
 	if Preamble != "" {
 		k := Preamble
